@@ -1184,13 +1184,126 @@ func UDPUnavailableBody(kind string) func(x *vrt.Exec) {
 	}
 }
 
+// LeaveVsPublishBody: a playing player leaves (TEARDOWN or plain disconnect) while packets are
+// being published. A witness attached all along must receive every packet; the leaver's record
+// must be a gap-free, repeat-free run that starts where it attached; the leaver must end up
+// disconnected and nothing of it may remain.
+func LeaveVsPublishBody(kind string, abrupt bool, n int) func(x *vrt.Exec) {
+	return func(x *vrt.Exec) {
+		vrt.Quiet(true)
+		w := newWorld(x)
+		if w == nil {
+			return
+		}
+		witness := "tcp"
+		if kind == "tcp" {
+			witness = "ws"
+		}
+		w.apply("attach:"+witness, false)
+		w.apply("attach:"+kind, false)
+		w.apply("pub", false)
+		p := w.players[kind]
+		var frames [][]byte
+		for i := 0; i < n; i++ {
+			k := len(w.published)
+			ch := chans[k%len(chans)]
+			var data []byte
+			if ch == 0 {
+				data = hx.Pkt(ch, 96, true, uint16(k), uint32(3000*k), rtppack.H264Single(hx.NAL(3, 1, 6+k, byte(k)))).Data
+			} else if ch == 2 {
+				data = hx.Pkt(ch, 97, true, uint16(k), uint32(1024*k), rtppack.AACHbr([][]byte{bytes.Repeat([]byte{byte(0x21 + k)}, 9+k)})).Data
+			} else {
+				data = append([]byte{0x80, 200, 0, 6}, bytes.Repeat([]byte{byte(0x10 + k)}, 24)...)
+			}
+			w.published = append(w.published, rec{int(ch), data})
+			frames = append(frames, frame(ch, data))
+		}
+		vrt.Quiet(false)
+		pubDone := false
+		vrt.GoNamed("publisher-client", func() {
+			for _, f := range frames {
+				w.pusher.SendRaw(f)
+			}
+			pubDone = true
+		})
+		switch {
+		case abrupt || p.httpW != nil || p.flvWS != nil:
+			switch {
+			case p.httpW != nil:
+				p.httpW.gone = true
+			case p.flvWS != nil:
+				p.flvWS.ClientClose()
+			case p.tcp != nil:
+				p.tcp.Conn.Close()
+			case p.ws != nil:
+				p.ws.Sock.ClientClose()
+			case p.wsp != nil:
+				p.wsp.Ctl.ClientClose()
+				p.wsp.Data.ClientClose()
+			}
+		case p.tcp != nil:
+			p.tcp.Send("TEARDOWN", pushURL, nil, "")
+		case p.ws != nil:
+			p.ws.Send("TEARDOWN", pushURL, nil, "")
+		case p.wsp != nil:
+			p.wsp.CSeq++
+			p.wsp.Seq++
+			req := fmt.Sprintf("TEARDOWN %s RTSP/1.0\r\nCSeq: %d\r\n\r\n", pushURL, p.wsp.CSeq)
+			p.wsp.Ctl.Push(1, []byte(fmt.Sprintf("WSP/1.1 WRAP\r\ncontentLength: %d\r\nseq: %d\r\n\r\n%s", len(req), p.wsp.Seq, req)))
+		}
+		vrt.Point("join-publisher", &pubDone, func() bool { return pubDone })
+		vrt.WhenIdle()
+		vrt.Quiet(true)
+		w.trail = append(w.trail, fmt.Sprintf("leave:%s || pub x%d", kind, n))
+		// an HTTP-FLV client's departure is only noticed at the next write: give it one
+		w.apply("pub", false)
+		kk := strings.TrimRight(kind, "12")
+		if !p.serverClosed() {
+			x.Failf("adapters leaver-not-disconnected "+kk, "history [%s]: the %s player left during publication and is still connected on the server side", w.history(), kind)
+		}
+		// the leaver's record: a run starting at its attach point
+		if p.ref == nil {
+			p.collect(x, vnet.Datagrams())
+			want := w.published[p.from:]
+			ok := len(p.got) <= len(want)
+			for i := 0; ok && i < len(p.got); i++ {
+				ok = p.got[i].ch == want[i].ch && bytes.Equal(p.got[i].data, want[i].data)
+			}
+			if !ok {
+				x.Failf("adapters "+kk+"-leave-record-not-a-prefix", "history [%s]: the leaving %s player received %s; published since its attach: %s", w.history(), kind, show(p.got, w.published), show(want, w.published))
+			}
+			x.Observe("%s got=%d", kind, len(p.got))
+		}
+		// the witness saw everything; the leaver is not judged again
+		p.attached, p.done = false, false
+		x.Observe("%s", strings.Join(w.checkReception(), " "))
+		if s := media.Get("/live/p"); s != nil {
+			if p.ref != nil {
+				s.StopConsume(p.refCid) // the harness's own reference FLV consumer
+				vrt.WhenIdle()
+			}
+			if n := s.ConsumerCount(); n != 1 {
+				x.Failf("adapters consumer-count-after-leave "+kk, "history [%s]: %d consumers counted, the witness only is attached", w.history(), n)
+			}
+		}
+		w.pusher.Do("TEARDOWN", pushURL, nil, "")
+		vrt.WhenIdle()
+		w.closeAllClients()
+		if n := vnet.OpenUDP(); n != 0 {
+			x.Failf("adapters udp-socket-left-open", "history [%s]: %d UDP sockets still open after every session ended", w.history(), n)
+		}
+		w.checkCounters("adapters-at-end leave-race "+kk, "publisher-teardown", w.history(), 0, 0, 0)
+		stuck(x, "adapters")
+	}
+}
+
 // FanoutScenarios are C01's.
 func FanoutScenarios(thorough bool) []runner.Scenario {
 	steps, e, sh, mcP, joinN := 6, 3, 8, 2, 3
 	if thorough {
 		steps, e, sh, mcP, joinN = 8, 4, 16, 3, 4 // the join races stay at P=2 (P=3 costs ~30 min per scenario) with one more packet
 	}
-	return []runner.Scenario{
+	out := []runner.Scenario{
 		{Name: fmt.Sprintf("adapters-teardown-steps%d", steps), Body: FanoutBody(steps, false), P: 0, E: e, Shards: sh, Horizon: 400000, NoFine: true},
 		{Name: fmt.Sprintf("adapters-disconnect-steps%d", steps), Body: FanoutBody(steps, true), P: 0, E: e, Shards: sh, Horizon: 400000, NoFine: true},
 		{Name: "adapters-multicast-last-member-leaves-while-another-starts", Body: MulticastRestartBody(), P: mcP, Shards: sh, Horizon: 400000, NoFine: true},
@@ -1200,6 +1313,20 @@ func FanoutScenarios(thorough bool) []runner.Scenario {
 		{Name: fmt.Sprintf("adapters-join-during-publication-ws-n%d", joinN), Body: JoinVsPublishBody("ws", joinN), P: 2, Shards: sh, Horizon: 400000, NoFine: true},
 		{Name: fmt.Sprintf("adapters-join-during-publication-wsp-n%d", joinN), Body: JoinVsPublishBody("wsp", joinN), P: 2, Shards: sh, Horizon: 400000, NoFine: true},
 	}
+	leavers := [][2]string{{"tcp", "teardown"}, {"wsp", "disconnect"}, {"mc1", "teardown"}, {"hflv", "disconnect"}}
+	if thorough {
+		leavers = nil
+		for _, k := range []string{"tcp", "udp", "mc1", "ws", "wsp", "hflv", "wflv"} {
+			leavers = append(leavers, [2]string{k, "disconnect"})
+			if k != "hflv" && k != "wflv" {
+				leavers = append(leavers, [2]string{k, "teardown"})
+			}
+		}
+	}
+	for _, l := range leavers {
+		out = append(out, runner.Scenario{Name: fmt.Sprintf("adapters-%s-during-publication-%s", l[1], l[0]), Body: LeaveVsPublishBody(l[0], l[1] == "disconnect", 3), P: 2, Shards: sh, Horizon: 400000, NoFine: true})
+	}
+	return out
 }
 
 // ReleaseScenarios are C03's.
